@@ -1,4 +1,5 @@
 import GoMailModel.Mime.Exec
+import GoMailModel.Proofs.Tree
 /-
   C08 — S/MIME signatures verify for every message shape (PARTIAL: the cryptography is trusted).
   The logical core is that the octets handed to the signer are the first body part exactly as it is
@@ -52,5 +53,30 @@ theorem cached_boundary_reused (p : PW) (mt given fresh1 fresh2 : Bytes) (hv : v
 /-- the signature part is a base64 body of the signer's output, typed application/pkcs7-signature -/
 theorem signature_part_shape : typeSMIMESigned = sb "application/pkcs7-signature; name=\"smime.p7s\"" ∧
     mimeSigned = sb "signed; protocol=\"application/pkcs7-signature\"; micalg=sha-256" := ⟨rfl, rfl⟩
+
+/-- **Structure of the signed render.** After the message header, the final render of a signed
+    message writes exactly ONE entity: multipart/signed (protocol application/pkcs7-signature,
+    micalg sha-256), whose children are the message tree - alternative / related / mixed layers as the
+    message needs them, the same `contentTree` the unsigned render writes - followed by the signature
+    part, opened and closed with one boundary; for every message shape, header state and entropy. -/
+theorem signed_render_is_tree (s : MsgState) (e : Entropy) (p : PW) (embeds attachments : List FileM) (h0 : p.stack = []) :
+    (stageContent s true (stageOpen s e true p).1 embeds attachments).out =
+      p.out ++ (Ent.multi mimeSigned (p.startMP mimeSigned e.bSigned e.bSigned).2
+        (contentTree s (stageOpen s e true p).2.bMixed (stageOpen s e true p).2.bRelated (stageOpen s e true p).2.bAlt embeds attachments ++
+          (s.parts.filter (·.smime)).map (leafOfPart s))).ser ∧
+    (stageContent s true (stageOpen s e true p).1 embeds attachments).stack = [] :=
+  signed_refines s e p embeds attachments h0
+
+/-- The entity that is signed and the first child of multipart/signed are serialisations of the same
+    tree: inside an open multipart (here: the S/MIME wrapper) the layer and content stages write
+    `serList` of `contentTree`, i.e. behind the first delimiter exactly `Ent.ser` of the tree the
+    pre-render wrote at the top level (`C01.render_is_tree`), provided the two renders see the same
+    parts, file headers and boundaries (`cached_boundary_reused`, C11). -/
+theorem nested_content_is_tree (s : MsgState) (e : Entropy) (p0 : PW) (embeds attachments : List FileM)
+    (b0 : Bytes) (l0 : Bool) (rest : List (Bytes × Bool)) (h0 : p0.stack = (b0, l0) :: rest) :
+    (stageContent s false (stageOpen s e false p0).1 embeds attachments).out =
+      p0.out ++ serList b0 l0 (contentTree s (stageOpen s e false p0).2.bMixed (stageOpen s e false p0).2.bRelated
+        (stageOpen s e false p0).2.bAlt embeds attachments) :=
+  (nested_refines s e p0 embeds attachments b0 l0 rest h0).1
 
 end GoMail.Props.C08
